@@ -16,6 +16,15 @@ from .mir import callee_of, short, fmt_place
 
 TOP = ("top",)
 UNIT = ("unit",)
+
+
+def mkproj(t, path):
+    """projection term, flattened: proj(proj(t, p), q) = proj(t, p + q)"""
+    if not path:
+        return t
+    if t[0] == "proj":
+        return ("proj", t[1], t[2] + tuple(path))
+    return ("proj", t, tuple(path))
 BIG = 1 << 128
 
 
@@ -144,7 +153,7 @@ class State:
             if q in d:
                 l = d[q]
                 if l[0] == "term":
-                    return ("term", ("proj", l[1], path[k:]))
+                    return ("term", mkproj(l[1], path[k:]))
                 return TOP
         return TOP
 
@@ -220,6 +229,11 @@ class Interp:
         self.named_universe = named_universe or {}
         self.steps = 0
         self.unknown_calls = defaultdict(int)
+        # http 1.1.0, src/method.rs: `pub const GET: Method = Method(Get);` etc.
+        self.variant_links = {"http::method::Inner": {
+            "Options": "Method::OPTIONS", "Get": "Method::GET", "Post": "Method::POST", "Put": "Method::PUT",
+            "Delete": "Method::DELETE", "Head": "Method::HEAD", "Trace": "Method::TRACE",
+            "Connect": "Method::CONNECT", "Patch": "Method::PATCH", "$other": "Method::$other"}}
 
     # ---------------------------------------------------------------- entry
     def run(self, body, arg_trees, init=None):
@@ -579,6 +593,30 @@ class Interp:
             return None
         base = st.read_leaf(root, path)
         cands = list(byname)
+        link = self.variant_links.get(en["adt"])
+        if link is not None and path and path[-1][0] == "f":
+            # a private representation enum whose variants correspond 1:1 to named public constants
+            # (http::Method): the variant choice is the identity fact of the enclosing value
+            pl = st.read_leaf(root, path[:-1])
+            if pl[0] == "named":
+                cands = [c for c in cands if link.get(c) == pl[1]] or [c for c in cands if c not in link]
+            elif pl[0] == "term":
+                other = link["$other"]
+                f = st.facts.get(pl[1])
+                allowed = f[1] if f and f[0] == "nc" else self.universe_of(other)
+                out = []
+                groups = {}
+                for c in cands:
+                    groups.setdefault(link.get(c, other), []).append(c)
+                for name, cs in groups.items():
+                    if name not in allowed:
+                        continue
+                    ns = st.clone()
+                    ns.facts[pl[1]] = ("nc", frozenset([name]))
+                    ns.write_leaf(root, path + (("$v",),), ("variant", cs[0]))
+                    ns.write_leaf(droot, dpath, ("int", byname[cs[0]]))
+                    out.append(ns)
+                return out
         if vleaf and vleaf[0] == "variants":
             cands = [c for c in cands if c in vleaf[1]]
         if base[0] == "term":
@@ -974,11 +1012,13 @@ class Interp:
         path = getattr(call, "path", "<indirect>")
         self.unknown_calls[path] += 1
         tys = [self.operand_ty(call.fr, a) for a in call.term["args"]]
-        self.havoc_refs(st, call.args, tys)
         key = (self.stack_key(st), call.fr.bb)
-        res = ("term", ("call", path, call.fr.body.id, call.fr.bb, st.visits.get(key, 0)))
+        # uninterpreted result, keyed by call site and abstract arguments (keeps the origin visible)
+        res = ("term", ("call", path, call.fr.body.id, call.fr.bb, st.visits.get(key, 0))
+               + tuple(call.arg_key(a) for a in call.args))
         if short(call.term["dest"]["ty"]) in ("()", "!"):
             res = UNIT
+        self.havoc_refs(st, call.args, tys)
         st.write_tree(call.dest[0], call.dest[1], leaf_tree(res))
         if call.term["target"] is None:
             site = dict(body=call.fr.body, bb=call.fr.bb, kind="diverging-call:" + path,
